@@ -25,6 +25,7 @@ import (
 	"github.com/sirupsen/logrus"
 
 	"github.com/projectcalico/calico/felix/config"
+	"github.com/projectcalico/calico/felix/proto"
 )
 
 // ------------------------------------------------------------------------------------------- rng
@@ -222,35 +223,105 @@ func gen() string {
 
 // ------------------------------------------------------------------------------------------- cases
 
+type srcKvs struct {
+	src config.Source
+	kvs [][2]string
+}
+
 type update struct {
 	src config.Source
 	kvs [][2]string // in a fixed (generated) order; the real code sees a map
+	// UpdateFromConfigUpdate: the whole per-source raw config of the message (isAll)
+	isAll bool
+	all   []srcKvs
 }
 
 type observation struct {
-	errs []bool
-	vals []string
-	raws [][2]string
+	errs    []bool
+	cerrs   []bool
+	changed []*[]string // nil = not observed (this call or the previous one failed)
+	vals    []string
+	raws    [][2]string
 }
 
-func (o observation) key() string { return fmt.Sprint(o.errs, "|", o.vals, "|", o.raws) }
+func (o observation) key() string {
+	var ch []string
+	for _, c := range o.changed {
+		if c == nil {
+			ch = append(ch, "-")
+		} else {
+			ch = append(ch, strings.Join(*c, ","))
+		}
+	}
+	return fmt.Sprint(o.errs, "|", o.cerrs, "|", ch, "|", o.vals, "|", o.raws)
+}
+
+func kvs0(u update) []string {
+	var kvs []string
+	for _, kv := range u.kvs {
+		kvs = append(kvs, fmt.Sprintf("(%s, %s)", bs(kv[0]), bs(kv[1])))
+	}
+	return kvs
+}
+
+func uf(src config.Source, kvs [][2]string) update { return update{src: src, kvs: kvs} }
+
+func ufs(sks []srcKvs) []update {
+	var out []update
+	for _, sk := range sks {
+		out = append(out, uf(sk.src, sk.kvs))
+	}
+	return out
+}
 
 func runOnce(ups []update, watch []string) observation {
 	c := config.New()
 	var o observation
 	lastErr := false
+	prevOK := true
 	for _, u := range ups {
-		m := make(map[string]string, len(u.kvs))
-		for _, kv := range u.kvs {
-			m[kv[0]] = kv[1]
+		var err error
+		var ch []string
+		if u.isAll {
+			msg := &proto.ConfigUpdate{Config: map[string]string{}, SourceToRawConfig: map[uint32]*proto.RawConfig{}}
+			for _, sk := range u.all {
+				m := make(map[string]string, len(sk.kvs))
+				for _, kv := range sk.kvs {
+					m[kv[0]] = kv[1]
+				}
+				msg.SourceToRawConfig[uint32(sk.src)] = &proto.RawConfig{Source: sk.src.String(), Config: m}
+			}
+			changedFields, e := c.UpdateFromConfigUpdate(msg)
+			err = e
+			if e == nil {
+				ch = changedFields.Slice()
+				sort.Strings(ch)
+				if ch == nil {
+					ch = []string{}
+				}
+			}
+		} else {
+			m := make(map[string]string, len(u.kvs))
+			for _, kv := range u.kvs {
+				m[kv[0]] = kv[1]
+			}
+			changed, e := c.UpdateFrom(m, u.src)
+			err = e
+			ch = []string{}
+			if changed {
+				ch = []string{"*"}
+			}
 		}
-		_, err := c.UpdateFrom(m, u.src)
 		lastErr = err != nil
 		o.errs = append(o.errs, lastErr)
-		if (err != nil) != (c.Err != nil) && err != nil {
-			// UpdateFrom's return and Config.Err must tell the same story when the call fails
-			panic("UpdateFrom returned an error but Config.Err is nil")
+		o.cerrs = append(o.cerrs, c.Err != nil)
+		if prevOK && err == nil {
+			cc := ch
+			o.changed = append(o.changed, &cc)
+		} else {
+			o.changed = append(o.changed, nil)
 		}
+		prevOK = err == nil
 	}
 	if !lastErr && len(ups) > 0 {
 		for _, n := range watch {
@@ -285,12 +356,12 @@ func runMany(ups []update, watch []string, reps int) []observation {
 
 // probe: which variant of resolve() is this tree?
 func probe() (fixed, sorted bool) {
-	o := runOnce([]update{
+	o := runOnce(ufs([]srcKvs{
 		{config.EnvironmentVariable, [][2]string{{"chaininsertmode", "append"}}},
 		{config.DatastoreGlobal, [][2]string{{"ChainInsertMode", "garbage"}}},
-	}, nil)
+	}), nil)
 	fixed = !o.errs[1]
-	obs := runMany([]update{{config.ConfigFile, [][2]string{{"HealthHost", "1.2.3.4"}, {"healthhost", "5.6.7.8"}, {"HEALTHHOST", "9.9.9.9"}}}},
+	obs := runMany(ufs([]srcKvs{{config.ConfigFile, [][2]string{{"HealthHost", "1.2.3.4"}, {"healthhost", "5.6.7.8"}, {"HEALTHHOST", "9.9.9.9"}}}}),
 		[]string{"HealthHost"}, 200)
 	sorted = len(obs) == 1
 	return
@@ -483,6 +554,12 @@ func main() {
 	}
 	r := &rng{s: *seed}
 
+	entries := func(u update) []srcKvs {
+		if u.isAll {
+			return u.all
+		}
+		return []srcKvs{{u.src, u.kvs}}
+	}
 	emit := func(g *caseGen, ups []update, stream string, nreps int) {
 		obs := runMany(ups, g.watch, nreps)
 		// parse oracle: the real Parse on every (known parameter, raw) pair of the case
@@ -490,9 +567,13 @@ func main() {
 		seenP := map[string]bool{}
 		shadowFatal, localDS, shadowing, fatalTop := false, false, false, false
 		for _, u := range ups {
-			for _, kv := range u.kvs {
+			var flatKvs [][2]string
+			for _, sk := range entries(u) {
+				flatKvs = append(flatKvs, sk.kvs...)
+			}
+			for _, kv := range flatKvs {
 				p, ok := ps[strings.ToLower(kv[0])]
-				if !ok || kv[1] == "" {
+				if !ok {
 					continue
 				}
 				md := p.GetMetadata()
@@ -521,10 +602,18 @@ func main() {
 		ambiguous := false
 		final := map[config.Source][][2]string{}
 		for _, u := range ups {
-			final[u.src] = nil
-			for _, kv := range u.kvs {
-				if kv[1] != "" {
-					final[u.src] = append(final[u.src], kv)
+			if u.isAll {
+				// the message replaces everything; empty values are kept on this path
+				final = map[config.Source][][2]string{}
+				for _, sk := range u.all {
+					final[sk.src] = append([][2]string{}, sk.kvs...)
+				}
+			} else {
+				final[u.src] = nil
+				for _, kv := range u.kvs {
+					if kv[1] != "" {
+						final[u.src] = append(final[u.src], kv)
+					}
 				}
 			}
 			for _, lk := range lowerNames {
@@ -600,20 +689,47 @@ func main() {
 
 		var upsC, sample []string
 		for _, u := range ups {
-			var kvs, skv []string
-			for _, kv := range u.kvs {
-				kvs = append(kvs, fmt.Sprintf("(%s, %s)", bs(kv[0]), bs(kv[1])))
-				skv = append(skv, kv[0]+"="+kv[1])
+			var parts, sparts []string
+			for _, sk := range entries(u) {
+				var kvs, skv []string
+				for _, kv := range sk.kvs {
+					kvs = append(kvs, fmt.Sprintf("(%s, %s)", bs(kv[0]), bs(kv[1])))
+					skv = append(skv, kv[0]+"="+kv[1])
+				}
+				parts = append(parts, fmt.Sprintf("(%d, [%s])", uint8(sk.src), strings.Join(kvs, "; ")))
+				sparts = append(sparts, fmt.Sprintf("%s: %s", sk.src, strings.Join(skv, ", ")))
 			}
-			upsC = append(upsC, fmt.Sprintf("(%d, [%s])", uint8(u.src), strings.Join(kvs, "; ")))
-			sample = append(sample, fmt.Sprintf("UpdateFrom(%s: %s)", u.src, strings.Join(skv, ", ")))
+			if u.isAll {
+				upsC = append(upsC, fmt.Sprintf("UAll [%s]", strings.Join(parts, "; ")))
+				sample = append(sample, fmt.Sprintf("UpdateFromConfigUpdate(%s)", strings.Join(sparts, " | ")))
+			} else {
+				upsC = append(upsC, fmt.Sprintf("UFrom %d [%s]", uint8(u.src), strings.Join(kvs0(u), "; ")))
+				sample = append(sample, fmt.Sprintf("UpdateFrom(%s)", sparts[0]))
+			}
 		}
 		var obsC []string
 		var obsS []any
 		for _, o := range obs {
-			var errs, vals, raws []string
+			var errs, cerrs, chs, vals, raws []string
+			var chS []any
 			for _, e := range o.errs {
 				errs = append(errs, cb(e))
+			}
+			for _, e := range o.cerrs {
+				cerrs = append(cerrs, cb(e))
+			}
+			for _, c := range o.changed {
+				if c == nil {
+					chs = append(chs, "None")
+					chS = append(chS, nil)
+					continue
+				}
+				var ns []string
+				for _, n := range *c {
+					ns = append(ns, bs(n))
+				}
+				chs = append(chs, fmt.Sprintf("Some [%s]", strings.Join(ns, "; ")))
+				chS = append(chS, *c)
 			}
 			for _, v := range o.vals {
 				vals = append(vals, bs(v))
@@ -621,8 +737,9 @@ func main() {
 			for _, kv := range o.raws {
 				raws = append(raws, fmt.Sprintf("(%s, %s)", bs(kv[0]), bs(kv[1])))
 			}
-			obsC = append(obsC, fmt.Sprintf("mk_obs [%s] [%s] [%s]", strings.Join(errs, "; "), strings.Join(vals, "; "), strings.Join(raws, "; ")))
-			obsS = append(obsS, map[string]any{"errs": o.errs, "values": o.vals, "rawValues": o.raws})
+			obsC = append(obsC, fmt.Sprintf("mk_obs [%s] [%s] [%s] [%s] [%s]", strings.Join(errs, "; "), strings.Join(cerrs, "; "),
+				strings.Join(chs, "; "), strings.Join(vals, "; "), strings.Join(raws, "; ")))
+			obsS = append(obsS, map[string]any{"errs": o.errs, "configErr": o.cerrs, "changed": chS, "values": o.vals, "rawValues": o.raws})
 		}
 		var watchC []string
 		for _, w := range g.watch {
@@ -640,7 +757,7 @@ func main() {
 	}
 
 	// corpus: the witnesses of the two findings and their mirror images, always first
-	corpus := [][]update{
+	corpus := [][]srcKvs{
 		{{config.EnvironmentVariable, [][2]string{{"chaininsertmode", "append"}}}, {config.DatastoreGlobal, [][2]string{{"ChainInsertMode", "garbage"}}}},
 		{{config.EnvironmentVariable, [][2]string{{"chaininsertmode", "append"}}}, {config.DatastoreGlobal, [][2]string{{"ChainInsertMode", "none"}}}},
 		{{config.EnvironmentVariable, [][2]string{{"chaininsertmode", "garbage"}}}, {config.DatastoreGlobal, [][2]string{{"ChainInsertMode", "append"}}}},
@@ -650,10 +767,11 @@ func main() {
 		{{config.DatastoreGlobal, [][2]string{{"DatastoreType", "zookeeper"}, {"FelixHostname", "none"}}}, {config.ConfigFile, [][2]string{{"DatastoreType", "kubernetes"}}}},
 	}
 	count := 0
-	for _, ups := range corpus {
+	for _, sks := range corpus {
 		if count >= *n {
 			break
 		}
+		ups := ufs(sks)
 		g := &caseGen{r: r, tags: map[string]bool{"corpus": true}}
 		for _, u := range ups {
 			for _, kv := range u.kvs {
@@ -775,7 +893,7 @@ func main() {
 			kvs, ok := g.content[s]
 			if !ok {
 				if r.intn(6) == 0 {
-					ups = append(ups, update{s, nil}) // an empty update
+					ups = append(ups, uf(s, nil)) // an empty update
 				}
 				continue
 			}
@@ -787,16 +905,54 @@ func main() {
 						old = append(old, [2]string{kv[0], r.pick(genericRaw)})
 					}
 				}
-				ups = append(ups, update{s, old})
+				ups = append(ups, uf(s, old))
 				g.tags["source-updated-twice"] = true
-				later = append(later, update{s, kvs})
+				later = append(later, uf(s, kvs))
 				continue
 			}
-			ups = append(ups, update{s, kvs})
+			ups = append(ups, uf(s, kvs))
 		}
 		ups = append(ups, later...)
+		// sometimes the calculation graph's ConfigUpdate message follows (UpdateFromConfigUpdate replaces every source):
+		// the same content (nothing may change), or one source dropped / one value replaced / an empty value added
+		if r.intn(5) == 0 {
+			cur := map[config.Source][][2]string{}
+			for _, u := range ups {
+				cur[u.src] = nil
+				for _, kv := range u.kvs {
+					if kv[1] != "" {
+						cur[u.src] = append(cur[u.src], kv)
+					}
+				}
+			}
+			var all []srcKvs
+			mode := r.intn(4)
+			for _, s := range allSources {
+				kvs, ok := cur[s]
+				if !ok {
+					continue
+				}
+				kvs = append([][2]string{}, kvs...)
+				switch {
+				case mode == 1 && r.intn(2) == 0:
+					continue // source dropped
+				case mode == 2 && len(kvs) > 0:
+					i := r.intn(len(kvs))
+					kvs[i][1] = r.pick(genericRaw)
+				case mode == 3 && len(kvs) > 0:
+					i := r.intn(len(kvs))
+					kvs[i][1] = ""
+				}
+				all = append(all, srcKvs{s, kvs})
+			}
+			ups = append(ups, update{isAll: true, all: all})
+			g.tags[fmt.Sprintf("config-update-message:%d", mode)] = true
+			if r.intn(3) == 0 && len(later) > 0 {
+				ups = append(ups, later[0]) // and a datastore update after it
+			}
+		}
 		if len(ups) == 0 {
-			ups = append(ups, update{config.ConfigFile, nil})
+			ups = append(ups, uf(config.ConfigFile, nil))
 		}
 		emit(g, ups, stream, nreps)
 	}
